@@ -71,6 +71,10 @@ SCHEDS = {
     "linear": {"object": {"type": "linear", "start_factor": 0.2, "total_iters": 3}},
     "plateau": {"object": {"type": "plateau", "patience": 0, "cooldown": 0, "factor": 0.5, "threshold": 0.5}},
     "cyclic": {"object": {"type": "cyclic", "step_size_up": 2}},
+    # option PAIRS: a scheduler option that makes the scheduler write further optimizer hyper-parameters (cycled momentum /
+    # beta1), a plateau scheduler with cooldown and a floor, an exponential scheduler on the probe only
+    "cyclic_momentum": {"object": {"type": "cyclic", "step_size_up": 1, "step_size_down": 2, "momentum": True}, "probe": {"type": "cyclic", "step_size_up": 2, "momentum": True}},
+    "plateau_cooldown": {"object": {"type": "plateau", "patience": 0, "cooldown": 1, "factor": 0.5, "threshold": 0.5, "min_lr": 0.1}, "probe": {"type": "exp", "gamma": 0.7}},
     # edge values: a learning rate that is EXACTLY zero at some split points (ramp down to 0, cycle starting at 0)
     "linear_to_zero": {"object": {"type": "linear", "start_factor": 1.0, "end_factor": 0.0, "total_iters": 2}, "probe": {"type": "linear", "start_factor": 1.0, "end_factor": 0.0, "total_iters": 3}},
     "cyclic_from_zero": {"object": {"type": "cyclic", "base_lr": 0.0, "max_lr": 0.4, "step_size_up": 1, "step_size_down": 1, "mode": "triangular"}},
@@ -523,6 +527,9 @@ def run(ctx):
     items += [c + ("hook", False) for c in hook_cfgs]
     # a refused save (write-once, without raw data) before every interruption, with learnable dataset parameters
     items += [c + (p, True, None, "failed_noraw_save") for c in learn_cfgs[:2] for p in learn_parts if p != "pairs"]
+    # option pairs of the schedulers (see SCHEDS)
+    if q:
+        items += [c + (p, False) for c in [("complex", 1, "adam", "cyclic_momentum"), ("potential", 2, "sgd_momentum", "cyclic_momentum"), ("complex", 1, "sgd", "plateau_cooldown")] for p in parts]
     # progress-dependent behaviour: runs of 12 (thorough 21) iterations, every split point, one path per kind
     long_n = "long12" if q else "long21"
     long_cfgs = [("complex", 1, "adam_eps", "exp"), ("potential", 2, "sgd_momentum", "cyclic")] if q else [("complex", 1, "adam_eps", "exp"), ("potential", 2, "sgd_momentum", "cyclic"), ("pure_phase", 1, "sgd", "plateau"), ("complex", 2, "adamw", "linear")]
